@@ -42,3 +42,284 @@ Print Assumptions text_block_shape.
 Theorem suffixes_are_the_go_table : forall ty, text_suffix ty = assoc go_text_suffixes ty.
 Proof. exact text_suffix_agree. Qed.
 Print Assumptions suffixes_are_the_go_table.
+
+(* ---------- from source characters to the emitted lines (TextLex.v) ---------- *)
+(* `part_lit body`: the characters between two quotes as the reader records them - every character kept (backslashes included),
+   except that a raw line break plus the whitespace after it becomes one space; `lit_parts`: the parts of a multi-part literal
+   (adjacent literals separated only by layout) joined by newlines; a prefix identifier directly before the quote becomes the
+   string type.  read_string'_spec / next_string / next_typed_string: what the lexer returns for any such literal, in any state;
+   text_value_* / parse_text_*: what the parser records (terminate applied once, with the type's terminator);
+   compile_text_stmt: a file consisting of one text statement compiles to its label, one directive per part, in order, the last
+   one terminated exactly once; program_texts_terminated / program_text_blocks: every text of every accepted program - inline,
+   typed, format(), text statement, poryswitch - ends with its terminator and is emitted as its block. *)
+From Pory Require Import LexLayout LexBetween TextLex.
+Theorem read_str_part_spec :
+  forall (f : nat) (body : list N) (l : lx) (acc : text) (rest : list N),
+  body_ok body ->
+  stops rest ->
+  chs l = body ++ rest -> Datatypes.length body < f -> exists l' : lx, read_str_part f l acc = (acc ++ part_lit body, l') /\ chs l' = rest.
+Proof. exact TextLex.read_str_part_spec. Qed.
+Print Assumptions read_str_part_spec.
+
+Theorem part_lit_plain :
+  forall b : list N, Forall (fun c : N => is_nl c = false) b -> part_lit b = b.
+Proof. exact TextLex.part_lit_plain. Qed.
+Print Assumptions part_lit_plain.
+
+Theorem part_lit_break :
+  forall (c : N) (r : list N), is_nl c = true -> part_lit (c :: r) = 32%N :: part_lit (dropws r).
+Proof. exact TextLex.part_lit_break. Qed.
+Print Assumptions part_lit_break.
+
+Theorem backslash_quote_ends_part :
+  forall (f : nat) (b : list N) (l : lx) (acc : text) (rest : list N),
+  body_ok b ->
+  chs l = b ++ 92%N :: 34%N :: rest ->
+  S (Datatypes.length b) < f -> exists l' : lx, read_str_part f l acc = (acc ++ part_lit b ++ [92%N], l') /\ chs l' = 34%N :: rest.
+Proof. exact TextLex.backslash_quote_ends_part. Qed.
+Print Assumptions backslash_quote_ends_part.
+
+Theorem nt_core_string :
+  forall (is_letter_hi is_digit_hi is_space_hi : N -> bool) (p : part) (ps : list part) (l : lx) (r : list N),
+  Forall part_ok (p :: ps) ->
+  no_quote r ->
+  chs l = src_parts (p :: ps) ++ r ->
+  exists (tk : token) (l' : lx),
+    nt_core is_letter_hi is_digit_hi is_space_hi l = ([tk], l', false) /\
+    ttype tk = STRING /\ tlit tk = lit_parts (p :: ps) /\ tline tk = line l /\ chs l' = skipped r.
+Proof. exact TextLex.nt_core_string. Qed.
+Print Assumptions nt_core_string.
+
+Theorem nt_core_typed_string :
+  forall (is_letter_hi is_digit_hi is_space_hi : N -> bool) (id : list N) (p : part) (ps : list part) (l : lx) (r : list N),
+  is_ident is_letter_hi is_digit_hi id ->
+  Forall part_ok (p :: ps) ->
+  no_quote r ->
+  chs l = id ++ src_parts (p :: ps) ++ r ->
+  exists (ty tk : token) (l' : lx),
+    nt_core is_letter_hi is_digit_hi is_space_hi l = ([ty; tk], l', false) /\
+    ttype ty = STRINGTYPE /\ tlit ty = id /\ tline ty = line l /\ ttype tk = STRING /\ tlit tk = lit_parts (p :: ps) /\ chs l' = skipped r.
+Proof. exact TextLex.nt_core_typed_string. Qed.
+Print Assumptions nt_core_typed_string.
+
+Theorem next_string :
+  forall (is_letter_hi is_digit_hi is_space_hi : N -> bool) (g : list N) (p : part) (ps : list part) (l : lx) (r : list N),
+  gap g ->
+  Forall part_ok (p :: ps) ->
+  no_quote r ->
+  chs l = g ++ src_parts (p :: ps) ++ r ->
+  exists (tk : token) (l' : lx),
+    next_token_aux is_letter_hi is_digit_hi is_space_hi l = ([tk], l', false) /\
+    ttype tk = STRING /\ tlit tk = lit_parts (p :: ps) /\ chs l' = skipped r.
+Proof. exact TextLex.next_string. Qed.
+Print Assumptions next_string.
+
+Theorem next_typed_string :
+  forall (is_letter_hi is_digit_hi is_space_hi : N -> bool) (g id : list N) (p : part) (ps : list part) (l : lx) (r : list N),
+  gap g ->
+  is_ident is_letter_hi is_digit_hi id ->
+  Forall part_ok (p :: ps) ->
+  no_quote r ->
+  chs l = g ++ id ++ src_parts (p :: ps) ++ r ->
+  exists (ty tk : token) (l' : lx),
+    next_token_aux is_letter_hi is_digit_hi is_space_hi l = ([ty; tk], l', false) /\
+    ttype ty = STRINGTYPE /\ tlit ty = id /\ ttype tk = STRING /\ tlit tk = lit_parts (p :: ps) /\ chs l' = skipped r.
+Proof. exact TextLex.next_typed_string. Qed.
+Print Assumptions next_typed_string.
+
+Theorem lex_text_stmt :
+  forall (is_letter_hi is_digit_hi is_space_hi : N -> bool) (g0 g1 name g2 g3 tyid : list N) (p : part) (ps : list part) (g4 : list N),
+  gap g0 ->
+  gap g1 ->
+  g1 <> [] ->
+  is_ident is_letter_hi is_digit_hi name ->
+  gap g2 ->
+  gap g3 ->
+  tyid = [] \/ is_ident is_letter_hi is_digit_hi tyid ->
+  Forall part_ok (p :: ps) ->
+  gap g4 ->
+  map shape (lex is_letter_hi is_digit_hi is_space_hi (text_stmt_src g0 g1 name g2 g3 tyid (p :: ps) g4)) =
+  [(TEXT, t "text"); (lookup_kw keywords name, name); (LBRACE, [123%N])] ++
+  match tyid with
+  | [] => []
+  | _ :: _ => [(STRINGTYPE, tyid)]
+  end ++ [(STRING, lit_parts (p :: ps)); (RBRACE, [125%N]); (EOF, [])] /\
+  tline (hd eof0 (lex is_letter_hi is_digit_hi is_space_hi (text_stmt_src g0 g1 name g2 g3 tyid (p :: ps) g4))) = (1 + LexInv.nl g0)%Z.
+Proof. exact TextLex.lex_text_stmt. Qed.
+Print Assumptions lex_text_stmt.
+
+Theorem text_value_string :
+  forall (parse_format : toks -> Parser.res (token * text * text * toks)) (ts : toks),
+  ttype (cur ts) = STRING -> text_value parse_format ts = Parser.Ok (terminate (tlit (cur ts)) [], [], ts).
+Proof. exact TextLex.text_value_string. Qed.
+Print Assumptions text_value_string.
+
+Theorem text_value_typed :
+  forall (parse_format : toks -> Parser.res (token * text * text * toks)) (ts : toks),
+  ttype (cur ts) = STRINGTYPE ->
+  ttype (cur (adv ts)) = STRING ->
+  text_value parse_format ts = Parser.Ok (terminate (tlit (cur (adv ts))) (tlit (cur ts)), tlit (cur ts), adv ts).
+Proof. exact TextLex.text_value_typed. Qed.
+Print Assumptions text_value_typed.
+
+Theorem text_value_format :
+  forall (parse_format : toks -> Parser.res (token * text * text * toks)) (ts : toks) (tk : token) (v sty : text) (ts1 : toks),
+  ttype (cur ts) = FORMAT -> parse_format ts = Parser.Ok (tk, v, sty, ts1) -> text_value parse_format ts = Parser.Ok (terminate v sty, sty, ts1).
+Proof. exact TextLex.text_value_format. Qed.
+Print Assumptions text_value_format.
+
+Theorem text_value_inv :
+  forall (parse_format : toks -> Parser.res (token * text * text * toks)) (ts : toks) (v sty : text) (ts' : toks),
+  text_value parse_format ts = Parser.Ok (v, sty, ts') ->
+  ttype (cur ts) = STRING /\ sty = [] /\ ts' = ts /\ v = terminate (tlit (cur ts)) [] \/
+  ttype (cur ts) = STRINGTYPE /\
+  ttype (cur (adv ts)) = STRING /\ sty = tlit (cur ts) /\ ts' = adv ts /\ v = terminate (tlit (cur (adv ts))) (tlit (cur ts)) \/
+  ttype (cur ts) = FORMAT /\ (exists (tk : token) (s : text), parse_format ts = Parser.Ok (tk, s, sty, ts') /\ v = terminate s sty).
+Proof. exact TextLex.text_value_inv. Qed.
+Print Assumptions text_value_inv.
+
+Theorem pory_text_inv :
+  forall (switches : list (text * text)) (env_errors : bool) (parse_format : toks -> Parser.res (token * text * text * toks)) 
+    (f : nat) (ts : toks) (v sty : text) (ts' : toks),
+  pory_text switches env_errors parse_format f ts = Parser.Ok (v, sty, ts') ->
+  (exists s : text, v = terminate s sty) \/ v = [] /\ sty = [] /\ env_errors = false.
+Proof. exact TextLex.pory_text_inv. Qed.
+Print Assumptions pory_text_inv.
+
+Theorem parse_text_inv :
+  forall (switches : list (text * text)) (env_errors : bool) (parse_format : toks -> Parser.res (token * text * text * toks)) 
+    (f : nat) (ts : toks) (td : textdef) (ts' : toks),
+  parse_text switches env_errors parse_format f ts = Parser.Ok (td, ts') ->
+  xtok td = cur ts /\ ((exists s : text, xvalue td = terminate s (xtype td)) \/ xvalue td = [] /\ xtype td = [] /\ env_errors = false).
+Proof. exact TextLex.parse_text_inv. Qed.
+Print Assumptions parse_text_inv.
+
+Theorem parse_text_plain :
+  forall (switches : list (text * text)) (env_errors : bool) (parse_format : toks -> Parser.res (token * text * text * toks)) 
+    (f : nat) (kw nm lb : token) (tyo : option token) (s rb : token) (rest : list token),
+  ttype nm = IDENT ->
+  ttype lb = LBRACE ->
+  value_ok tyo ->
+  ttype s = STRING ->
+  ttype rb = RBRACE ->
+  parse_text switches env_errors parse_format f (kw :: nm :: lb :: value_toks tyo s ++ rb :: rest) =
+  Parser.Ok
+    ({| xname := tlit nm; xvalue := terminate (tlit s) (value_type tyo); xtype := value_type tyo; xglob := true; xtok := kw |}, rb :: rest).
+Proof. exact TextLex.parse_text_plain. Qed.
+Print Assumptions parse_text_plain.
+
+Theorem parse_text_scoped :
+  forall (switches : list (text * text)) (env_errors : bool) (parse_format : toks -> Parser.res (token * text * text * toks)) 
+    (f : nat) (kw lp sc rp nm lb : token) (tyo : option token) (s rb : token) (rest : list token),
+  ttype lp = LPAREN ->
+  ttype sc = GLOBAL \/ ttype sc = LOCAL ->
+  ttype rp = RPAREN ->
+  ttype nm = IDENT ->
+  ttype lb = LBRACE ->
+  value_ok tyo ->
+  ttype s = STRING ->
+  ttype rb = RBRACE ->
+  parse_text switches env_errors parse_format f (kw :: lp :: sc :: rp :: nm :: lb :: value_toks tyo s ++ rb :: rest) =
+  Parser.Ok
+    ({| xname := tlit nm; xvalue := terminate (tlit s) (value_type tyo); xtype := value_type tyo; xglob := is GLOBAL sc; xtok := kw |},
+     rb :: rest).
+Proof. exact TextLex.parse_text_scoped. Qed.
+Print Assumptions parse_text_scoped.
+
+Theorem parse_program_text_stmt :
+  forall (autovars : list (text * autovar)) (switches : list (text * text)) (env_errors : bool)
+    (parse_format : toks -> Parser.res (token * text * text * toks)) (kw nm lb : token) (tyo : option token) (s rb eof : token),
+  ttype kw = TEXT ->
+  ttype nm = IDENT ->
+  ttype lb = LBRACE ->
+  value_ok tyo ->
+  ttype s = STRING ->
+  ttype rb = RBRACE ->
+  ttype eof = EOF ->
+  parse_program autovars switches env_errors parse_format (kw :: nm :: lb :: value_toks tyo s ++ [rb; eof]) =
+  Parser.Ok
+    {|
+      tops := [TTextStmt];
+      texts := [{| xname := tlit nm; xvalue := terminate (tlit s) (value_type tyo); xtype := value_type tyo; xglob := true; xtok := kw |}]
+    |}.
+Proof. exact TextLex.parse_program_text_stmt. Qed.
+Print Assumptions parse_program_text_stmt.
+
+Theorem terminated_lines :
+  forall (L : list text) (ty : text),
+  L <> [] -> Forall no10 L -> split_nl (terminate (Parser.join nl10 L) ty) [] = removelast L ++ [terminate (last L []) ty].
+Proof. exact TextLex.terminated_lines. Qed.
+Print Assumptions terminated_lines.
+
+Theorem lit_parts_lines :
+  forall ps : list part, lit_parts ps = Parser.join nl10 (lines_of ps).
+Proof. exact TextLex.lit_parts_lines. Qed.
+Print Assumptions lit_parts_lines.
+
+Theorem lit_parts_plain :
+  forall ps : list part,
+  Forall (fun p : part => Forall (fun c : N => is_nl c = false) (fst p)) ps ->
+  fst (hd ([], []) ps) <> [] -> lit_parts ps = Parser.join nl10 (map (fun p : part => fst p) ps).
+Proof. exact TextLex.lit_parts_plain. Qed.
+Print Assumptions lit_parts_plain.
+
+Theorem literal_directive_lines :
+  forall (ps : list part) (ty : text),
+  split_nl (terminate (lit_parts ps) ty) [] = removelast (lines_of ps) ++ [terminate (last (lines_of ps) []) ty].
+Proof. exact TextLex.literal_directive_lines. Qed.
+Print Assumptions literal_directive_lines.
+
+Theorem last_line_terminated :
+  forall v ty suf : text, text_suffix ty = Some suf -> ends_with_terminator v ty -> exists q : list N, last (split_nl v []) [] = q ++ suf.
+Proof. exact TextLex.last_line_terminated. Qed.
+Print Assumptions last_line_terminated.
+
+Theorem compile_text_stmt :
+  forall (is_letter_hi is_digit_hi is_space_hi : N -> bool) (autovars : list (text * autovar)) (switches : list (text * text))
+    (env_errors : bool) (fc : Format.fontcfg) (cli_font : text) (cli_maxlen : Z) (optimize : bool) (mpath : option text)
+    (g0 g1 name g2 g3 tyid : list N) (p : part) (ps : list part) (g4 : list N),
+  gap g0 ->
+  gap g1 ->
+  g1 <> [] ->
+  is_ident is_letter_hi is_digit_hi name ->
+  lookup_kw keywords name = IDENT ->
+  gap g2 ->
+  gap g3 ->
+  tyid = [] \/ is_ident is_letter_hi is_digit_hi tyid ->
+  Forall part_ok (p :: ps) ->
+  gap g4 ->
+  Compile.compile is_letter_hi is_digit_hi is_space_hi autovars switches env_errors fc cli_font cli_maxlen optimize mpath
+    (text_stmt_src g0 g1 name g2 g3 tyid (p :: ps) g4) =
+  Compile.OutText
+    (print_instrs mpath
+       (text_block mpath name true (1 + LexInv.nl g0) (directive_of tyid)
+          (removelast (lines_of (p :: ps)) ++ [terminate (last (lines_of (p :: ps)) []) tyid]))).
+Proof. exact TextLex.compile_text_stmt. Qed.
+Print Assumptions compile_text_stmt.
+
+Theorem program_texts_terminated :
+  forall (autovars : list (text * autovar)) (switches : list (text * text)) (ee : bool)
+    (parse_format : toks -> Parser.res (token * text * text * toks)) (ts : toks) (p : program),
+  parse_program autovars switches ee parse_format ts = Parser.Ok p ->
+  Forall (fun x : textdef => ends_with_terminator (xvalue x) (xtype x) \/ xvalue x = [] /\ xtype x = [] /\ ee = false) (texts p).
+Proof. exact TextLex.program_texts_terminated. Qed.
+Print Assumptions program_texts_terminated.
+
+Theorem program_texts_terminated_strict :
+  forall (autovars : list (text * autovar)) (switches : list (text * text)) (ee : bool)
+    (parse_format : toks -> Parser.res (token * text * text * toks)) (ts : toks) (p : program),
+  ee = true ->
+  parse_program autovars switches ee parse_format ts = Parser.Ok p ->
+  Forall (fun x : textdef => ends_with_terminator (xvalue x) (xtype x)) (texts p).
+Proof. exact TextLex.program_texts_terminated_strict. Qed.
+Print Assumptions program_texts_terminated_strict.
+
+Theorem program_text_blocks :
+  forall (optimize : bool) (mpath : option text) (p : program) (out : list instr) (x : textdef),
+  emit_program_instrs optimize mpath p = Ok out ->
+  In x (texts p) ->
+  exists pre post : list instr,
+    out = pre ++ text_block mpath (xname x) (xglob x) (tline (xtok x)) (directive x) (split_nl (xvalue x) []) ++ post.
+Proof. exact TextLex.program_text_blocks. Qed.
+Print Assumptions program_text_blocks.
+
